@@ -275,7 +275,7 @@ def shrink(oracle, model, case, budget_s=20):
 # ----------------------------------------------------------------------------- rich generator
 PRIM_TYPES = ["bit", "int", "string", "code", "dag"]
 IDENT_POOL = ["A", "B", "C", "D", "Base", "Inst", "Reg", "x", "y", "z", "i", "v", "f", "g", "h", "name", "val",
-              "ops", "lst", "acc", "NAME", "d0", "d1", "M", "MC", "Q"]
+              "ops", "lst", "acc", "NAME", "d0", "d1", "M", "MC", "Q", "anonymous_0", "anonymous_1"]
 
 # name, annotation ('req' / 'opt' / None), arity (lo, hi or None), argument kinds
 BANG_TABLE = [
